@@ -17,6 +17,19 @@ d6 = N('scxml', 0, [N('state', 1, [N('hs', 9, trans=[T(103, None, None, [3])]),
 # F7: an error in an element nested in <if> still closes the <if>'s content bracket
 f7 = N('scxml', 0, [N('state', 1, onentry=[[('if', 105, ('in', 1), [('sendbt', 106, b'q'), ('raise', 107, b'f')]), ('raise', 108, b'g')]])])
 
+# FD: default transition of a deep history with several targets (into two regions of a <parallel>): the fast engine and the
+# C / Promela templates closed the entry set upwards for the first target only (s7 entered without its parent s11); fixed
+fdh = N('scxml', 0, [N('state', 1, [N('hd', 20, trans=[T(103, None, None, [4, 7])]),
+                                    N('parallel', 2, [N('state', 3, [N('state', 10, [N('state', 4), N('state', 12)])]),
+                                                      N('state', 6, [N('state', 13), N('state', 11, [N('state', 14), N('state', 7)])])])]),
+                     N('state', 9, trans=[T(104, b'e', None, [20])])], init=[9])
+
+# CDI: 'initial' attribute naming states in two regions of a <parallel>, two levels down: the generated C closed the entry set
+# upwards for the first completion state only; fixed
+cdi = N('scxml', 0, [N('state', 1, [N('parallel', 2, [N('state', 3, [N('state', 10, [N('state', 4), N('state', 12)])]),
+                                                      N('state', 6, [N('state', 13), N('state', 11, [N('state', 14), N('state', 7)])])])], init=[4, 7]),
+                     N('state', 9, trans=[T(104, b'e', None, [1])])], init=[9])
+
 SWITCH_WITNESSES = [
     ('exit_interval_overreach', d1, [b'go', b'e']),
     ('targetless_exits_root', d2, [b'e']),
@@ -73,4 +86,6 @@ CORPUS = [
     ('k2-same-source', k2, [b'e'], 'null'),
     ('kho-history-overlap', kho, [b'e'], 'null'),
     ('kht-history-target-domain', kht, [b'e'], 'null'),
+    ('fdh-deep-history-multi-target-default', fdh, [b'e'], 'null'),
+    ('cdi-deep-initial-attribute-two-regions', cdi, [b'e'], 'null'),
 ]
